@@ -34,6 +34,10 @@ structure Binding where
   schema : Schema
   hasPack : Bool
   hasDecode : Bool
+  /-- regenerated: the body of ABIPack is exactly `Arguments.Pack(v)`, the body of ABIDecode exactly
+      `Unpack ; json.Marshal ; json.Unmarshal` — no further statement touches a field -/
+  packPure : Bool := true
+  decodePure : Bool := true
 
 /-! ### UTF-8 (utf8.DecodeRune acceptance table) -/
 
